@@ -32,7 +32,7 @@ REQUIRED_BUCKETS = ['import:plain', 'import:as', 'import:from', 'import:from-as'
                     'spelling:two-for-one-object', 'order:class-then-method', 'order:method-then-class', 'order:method-via-other-spelling-than-class',
                     'ref:created-before-method-configured', 'ref:scoped', 'obj:registered-by-decorator-under-custom-name', 'obj:decorated-variant-of-another-object', 'include:own-imports', 'include:colliding-bound-name', 'error:name-from-includer', 'error:name-from-includee',
                     'error:attribute', 'error:gin-reserved', 'error:late-enabling', 'error:aliased-enabling', 'error:unknown-feature', 'error:unknown-feature-path', 'roundtrip:same-process',
-                    'roundtrip:fresh-process', 'equally-named-modules', 'cross-parse:second-parse', 'cross-parse:include', 'cross-parse:includer', 'alias-collision:second-parse', 'alias-collision:include', 'alias-collision:sibling-plain-after-alias', 'alias-collision:sibling-plain-before-alias', 'alias-collision:same-file-rebind',
+                    'roundtrip:fresh-process', 'equally-named-modules', 'cross-parse:second-parse', 'cross-parse:include', 'cross-parse:includer', 'alias-collision:second-parse', 'alias-collision:include', 'alias-collision:sibling-plain-after-alias', 'alias-collision:sibling-plain-before-alias', 'alias-collision:same-file-rebind', 'alias-collision:alias-is-package-name', 'alias-collision:alias-is-package-name-plain-first', 'cross-parse:same-statement',
                     'alias-collision:includer',
                     'form:block', 'form:block-first-use', 'ref:in-container', 'ref:unevaluated', 'ref:to-nested-class', 'ref:held-by-macro', 'ref:in-scoped-binding',
                     'ref:container-created-before-method-configured', 'probe:unbound-object-registered', 'probe:unbound-object-unregistered', 'roundtrip:operative',
@@ -144,7 +144,7 @@ def iter_cases(ctx, rng, n):
   main_no = 0
   ft_no = rng.randrange(72)
   # rare alternatives are taken in turn (from a random start) rather than drawn: every run must reach each of them
-  ac_no, err_no, gr_no = rng.randrange(6), rng.randrange(9), rng.randrange(7)
+  ac_no, err_no, gr_no = rng.randrange(8), rng.randrange(9), rng.randrange(7)
   for i in range(n):
     if i % 40 == 9:
       yield {'kind': 'class-shape', 'which': rng.choice(['inherited-method', 'static-method', 'class-method']), 'order': rng.random() < 0.5}
@@ -156,11 +156,12 @@ def iter_cases(ctx, rng, n):
     if i % 7 == 3:
       if rng.random() < 0.35:
         ac_no += 1
-        yield {'kind': 'alias-collision', 'how': ['second-parse', 'include', 'includer', 'sibling-plain-after-alias', 'sibling-plain-before-alias', 'same-file-rebind'][ac_no % 6],
+        yield {'kind': 'alias-collision', 'how': ['second-parse', 'include', 'includer', 'sibling-plain-after-alias', 'sibling-plain-before-alias', 'same-file-rebind', 'alias-is-package-name',
+                                                'alias-is-package-name-plain-first'][ac_no % 8],
                'alias': rng.choice(['X', 'alpha', 'mod']), 'plain': rng.choice(['from PK import alpha', 'import PK.alpha']),
                'form': rng.choice(['import PK.%s as %s', 'from PK import %s as %s'])}
         continue
-      yield {'kind': 'cross-parse', 'how': rng.choice(['second-parse', 'include', 'includer']), 'ref_import': rng.choice(['import PK.alpha as M1', 'from PK import alpha as M1', 'import PK.alpha']),
+      yield {'kind': 'cross-parse', 'how': rng.choice(['second-parse', 'include', 'includer', 'same-statement']), 'ref_import': rng.choice(['import PK.alpha as M1', 'from PK import alpha as M1', 'import PK.alpha']),
              'meth_import': rng.choice(['from PK import alpha', 'import PK.alpha as Z9', 'import PK.alpha']), 'scoped': rng.random() < 0.5,
              'second_method': rng.random() < 0.5, 'entry': rng.choice(['text', 'file']), 'wrap': rng.choice(['plain', 'plain', 'list', 'uneval'])}
       continue
@@ -611,6 +612,30 @@ def run_cross_parse(ctx, case):
       gin.parse_config_file(top)
     else:
       gin.parse_config(text)
+  if case['how'] == 'same-statement':
+    # ONE statement configures a method of K for the first time and holds, as its value, a reference to K itself (written through the
+    # same or another spelling of the module); K may or may not have been configured before
+    pre = (case['ref_import'].replace('PK', pk) + '\n%s.K.a = 5\n' % rs) if case['scoped'] or case['second_method'] else ''
+    ref_text = dyn + pre + case['meth_import'].replace('PK', pk) + '\n%s.K.meth.m = %s\n' % (
+        ms, REF_WRAPS[wrap] % ('@%s%s.K%s' % (sc, ms, '' if wrap == 'uneval' else '()')))
+    meth_text = ''
+    try:
+      parse(ref_text, 1)
+      K = resolve_obj(pk, 'alpha.K')
+      outer = gin.get_configurable(K)()
+      inner = unwrap_ref(outer.meth()[1], wrap)
+      innermost = unwrap_ref(inner.meth()[1], wrap) if isinstance(inner, K) else inner
+      got = (isinstance(outer, K), isinstance(inner, K), isinstance(innermost, K))
+    except Exception as e:  # pylint: disable=broad-except
+      ctx.check(False, 'delivery-failed', 'a method binding whose value references the method\'s own class raised %s: %s\n%s' % (
+          type(e).__name__, str(e)[:300].replace(pk, 'PK'), ref_text.replace(pk, 'PK')))
+      gin.clear_config()
+      return
+    ctx.count('deliveries_compared')
+    ctx.check(got == (True, True, True), 'reference-in-the-statement-that-configures-the-method-stale',
+              'K.meth.m = @K(): (K() is a K, K().meth() got a K, that instance\'s meth() got a K) = %r\n%s' % (got, ref_text.replace(pk, 'PK')))
+    gin.clear_config()
+    return
   try:
     if case['how'] == 'second-parse':
       parse(ref_text, 1)
@@ -682,6 +707,43 @@ def run_alias_collision(ctx, case):
     t2 = dyn + (case['form'] % ('beta', 'alpha')).replace('PK', pk) + '\nalpha.shared.v = 10\nalpha.K.a = 20\n'
     if case['how'] == 'sibling-plain-after-alias':
       t1, t2 = t2, t1
+  if case['how'].startswith('alias-is-package-name'):
+    # one file gives a module the alias that is the NAME OF THE PACKAGE; another file imports a module of that package plainly (`import PK.m`,
+    # which binds that very name to the package). Whichever of the two module paths sorts first, both selectors keep their objects.
+    amod, pmod, pobj = rng_pick(case, [('alpha', 'sub.gamma', 'fg.x'), ('sub.gamma', 'alpha', 'fa.x')])
+    form = case['form'] if '.' not in amod else 'import PK.%s as %s'
+    t1 = dyn + (form % (amod, 'PK')).replace('PK', pk) + ('\nPK.%s = 1\n' % ('shared.v' if amod == 'alpha' else 'fg.x')).replace('PK', pk)
+    t2 = dyn + ('import PK.%s\nPK.%s.%s = 10\n' % (pmod, pmod, pobj)).replace('PK', pk)
+    if case['how'].endswith('plain-first'):
+      t1, t2 = t2, t1
+    try:
+      gin.parse_config(t1)
+      gin.parse_config(t2)
+    except Exception as e:  # pylint: disable=broad-except
+      ctx.check(False, 'colliding-import-names-across-files-rejected', 'an alias equal to the package name and a plain import: %s: %s\n%s\n---\n%s' %
+                (type(e).__name__, str(e)[:300], t1.replace(pk, 'PK'), t2.replace(pk, 'PK')))
+      gin.clear_config()
+      return
+    a_obj = importlib_get(pk, 'alpha', 'shared') if amod == 'alpha' else resolve_obj(pk, 'sub.gamma.fg')
+    p_obj = resolve_obj(pk, 'sub.gamma.fg') if pmod == 'sub.gamma' else resolve_obj(pk, 'alpha.fa')
+    def obs2():
+      return (gin.get_bindings(a_obj), gin.get_bindings(p_obj))
+    want2 = ({'v' if amod == 'alpha' else 'x': 1}, {'x': 10})
+    ctx.count('deliveries_compared')
+    got = obs2()
+    ctx.check(got == want2, 'binding-through-other-spelling-lost', 'alias equal to the package name: bindings %r expected %r' % (got, want2))
+    try:
+      s = gin.config_str()
+      gin.clear_config()
+      gin.parse_config(s)
+      got2 = obs2()
+      ctx.check(got2 == want2 and gin.config_str() == s, 'roundtrip-delivers-other-values',
+                'alias equal to the package name: after re-parsing config_str(): %r expected %r\n%s' % (got2, want2, s.replace(pk, 'PK')))
+    except Exception as e:  # pylint: disable=broad-except
+      ctx.check(False, 'config-str-roundtrip-failed', 'alias equal to the package name: config_str / re-parsing raised %s: %s\n%s\n---\n%s' % (
+          type(e).__name__, str(e)[:200].replace(pk, 'PK'), t1.replace(pk, 'PK'), t2.replace(pk, 'PK')))
+    gin.clear_config()
+    return
   if case['how'] == 'same-file-rebind':
     # within ONE file a later import statement re-binds the name, as in Python: selectors after it go through the later module
     t1 = (dyn + (case['form'] % ('alpha', al)).replace('PK', pk) + '\n%s.shared.v = 1\n%s.K.a = 2\n' % (al, al) +
@@ -720,6 +782,11 @@ def run_alias_collision(ctx, case):
   except Exception as e:  # pylint: disable=broad-except
     ctx.check(False, 'config-str-roundtrip-failed', 'alias collision: re-parsing config_str() raised %s: %s\n%s' % (type(e).__name__, str(e)[:200], s.replace(pk, 'PK')))
   gin.clear_config()
+
+
+def rng_pick(case, options):
+  """A choice that is a function of the case (so that a replay takes the same one)."""
+  return options[(len(case['alias']) + len(case['form']) + len(case.get('plain', ''))) % len(options)]
 
 
 def importlib_get(pk, mod, name):
